@@ -130,7 +130,11 @@ def run(ctx):
         rep = rng.choice(mgh.REPRS)
         jobs.append(dict(call="collection", graphs=[dict(n=g[0], edges=g[1], repr=rep if t % 2 else rng.choice(mgh.REPRS)) for g in gs], seed=t, order=None))
         gl.append(gs)
-    results, _ = run_driver_parallel("mgh.py", jobs, nproc=12)
+    _collections(ctx, jobs, gl, "V-collections")
+
+
+def _collections(ctx, jobs, gl, label, nproc=12):
+    results, _ = run_driver_parallel("mgh.py", jobs, nproc=nproc)
     cases, meta = [], []
     for j, gs, r in zip(jobs, gl, results):
         g = dict(gx=None, gy=None)
@@ -148,7 +152,7 @@ def run(ctx):
                 if a != b:
                     res = {"lb": float(L[a][b] / 2).hex(), "ub": float(U[a][b] / 2).hex(), "warn": r.get("warn", 0)}
                     cases.append(mgh.pair_case(gs[a], gs[b], res, exact=True, algo=False)); meta.append((dict(gx=gs[a], gy=gs[b]), j))
-    _judge(ctx, cases, meta, "V-collections")
+    _judge(ctx, cases, meta, label, nproc)
 
 
 def replay(ctx, rec):
@@ -158,4 +162,5 @@ def replay(ctx, rec):
         g = c["group"]
         _run_groups(ctx, [dict(gx=(g["gx"][0], [tuple(e) for e in g["gx"][1]]), gy=(g["gy"][0], [tuple(e) for e in g["gy"][1]]), disconnected=g.get("disconnected"), jobs=[j])], "replay", nproc=1)
     else:
-        ctx.notes.append("collection replays are re-run through the check itself")
+        gs = [(g["n"], [tuple(e) for e in g["edges"]]) for g in j["graphs"]]
+        _collections(ctx, [j], [gs], "replay", nproc=1)
